@@ -55,7 +55,7 @@ func addHeaders(r *http.Request, cfg config.Proxy, stripPath string) error {
 	// set the X-Forwarded-For header for websocket
 	// connections since they aren't handled by the
 	// http proxy which sets it.
-	ws := r.Header.Get("Upgrade") == "websocket"
+	ws := isWebsocket(r)
 	if ws {
 		clientIP := remoteIP
 		// If we aren't the first proxy retain prior
@@ -205,7 +205,7 @@ func scheme(r *http.Request) string {
 		}
 	}
 
-	ws := r.Header.Get("Upgrade") == "websocket"
+	ws := isWebsocket(r)
 	switch {
 	case ws && r.TLS != nil:
 		return "wss"
@@ -216,6 +216,13 @@ func scheme(r *http.Request) string {
 	default:
 		return "http"
 	}
+}
+
+// isWebsocket returns true for the requests which are
+// forwarded by the websocket handler instead of the http proxy.
+func isWebsocket(r *http.Request) bool {
+	upgrade := r.Header.Get("Upgrade")
+	return upgrade == "websocket" || upgrade == "Websocket"
 }
 
 func localPort(r *http.Request) string {
